@@ -147,7 +147,7 @@ def py_e2e_spec(case, t, e):
     S, full = case['S_h'], case['full_h']
     S_nosub = [x for x in S if x not in case.get('S_subpkgs', [])]
     body = t['pre'] if t.get('pre') is not None else t['orig']
-    own = {(case['script'], f) for f in G.OWN_FUNCS} if (full and case['with_own']) else set()
+    own = {(case.get('script_real', case['script']), f) for f in G.OWN_FUNCS} if (full and case['with_own']) else set()
 
     def funcs_of(reals, drop_wrapped=False):
         out = set()
@@ -217,10 +217,11 @@ def py_sel_resolution(case, t):
 
 # ---------------------------------------------------------------------------------------
 def gen_cases(tier, rnd, root):
-    n_lay, n_e2e, n_tree, n_mod = (90, 45, 220, 50) if tier == 'quick' else (1500, 500, 5000, 800)
+    n_lay, n_e2e, n_tree, n_mod = (96, 56, 220, 50) if tier == 'quick' else (1500, 500, 5000, 800)
     cases = []
     for k in range(n_lay):
-        c = G.gen_layout_case(rnd, e2e=k < n_e2e, wrapped=(k % 3 == 0))
+        variant = {1: 'twins', 4: 'symlink', 6: 'twins'}.get(k % 8)
+        c = G.gen_layout_case(rnd, e2e=k < n_e2e, wrapped=(k % 3 == 0), variant=variant)
         cases.append(c)
     for k in range(n_tree):
         cases.append(G.gen_tree_case(rnd, module_mode=False))
@@ -444,7 +445,7 @@ def run(tier, seed):
     samples = []
     for i in (0, len(cases) // 2, len(cases) - 1):
         t = results[i].get('tree') or {}
-        samples.append(dict(script=cases[i]['files'][cases[i]['script']][:400], prof_mod=cases[i]['prof_mod'],
+        samples.append(dict(script=cases[i]['files'][cases[i].get('script_real', cases[i]['script'])][:400], prof_mod=cases[i]['prof_mod'],
                             S=t.get('S'), full=t.get('full'), registered=t.get('dict'),
                             e2e_keys=(results[i].get('e2e') or {}).get('keys')))
     res.coverage = dict(
@@ -452,6 +453,8 @@ def run(tier, seed):
         rule='non-trivial = the selection matches at least one top-level import or the script itself is selected; '
              'distinct by (converted tree, resolved selection, whole-script flag, --prof-imports)',
         samples=samples, in_process_tree_cases=len(trees), end_to_end_runs=e2e_n,
+        layout_variants=dict(same_named_members=sum(1 for c in cases if c.get('variant') == 'twins'),
+                             symlinked_spellings=sum(1 for c in cases if c.get('variant') == 'symlink')),
         end_to_end_malformed_skipped=sum(1 for r in results if (r.get('e2e') or {}).get('malformed')),
         tree_depth_histogram={str(k): v for k, v in sorted(depths.items())}, import_forms=styles,
         selection_spellings=spell,
